@@ -137,6 +137,38 @@ T = {
  "C20-s3": ("C20", ["C20"], "internal/core/keys_unix.go GetCursorPos snapshots only k.waiting under the lock; k.reading is forgotten (same break as C20-s1 dressed as a race clean-up)", "a resize / Printf between a key-reading command and its argument key"),
  "C20-s4": ("C20", ["C20"], "internal/core/keys.go extractCursorPos cuts the reports out of the input in place; keys following a report in the same read overwrite the report handed to the requester", "a resize / Printf while the shell waits, the answer followed by typed keys in the same read"),
  # third round (sub-agents, eight properties)
+ "C01-s5": ("C01", ["C01"], "internal/ui/prompt.go formatRightPrompt: the padding of the right-side / tooltip prompt is built before the test that the prompt fits; a negative padding length panics in strings.Repeat",
+            "an application right prompt or tooltip and an input line whose last row leaves less room than the prompt is wide"),
+ "C01-s6": ("C01", ["C01"], "internal/history/sources.go Delete: the index of the active source is kept when sources are removed; the next call indexes past the remaining names",
+            "2+ history sources, the user cycling to a later one, the application removing sources between two calls, then another call"),
+ "C03-s5": ("C03", ["C03"], "internal/keymap: the sorted list of a keymap's sequences is cached at the first dispatched key and only dropped by ReloadConfig; binds changed through the API afterwards are not dispatched (or stale ones are)",
+            "keys dispatched once, then the table changed through Config.Bind / deletions from Config.Binds, then keys again"),
+ "C03-s6": ("C03", ["C03", "C18"], "internal/core/keys.go flushFed: keys fed to the key stack (macros, fed-back keys) are converted with byte(key) instead of UTF-8 encoded",
+            "a macro (bound or recorded) holding a character above U+007F"),
+ "C04-s5": ("C04", ["C04"], "internal/term: terminal size cached in the process, forgotten only by the SIGWINCH watcher that runs during a call",
+            "a width change between two Readline calls of one process"),
+ "C04-s6": ("C04", ["C04"], "internal/ui/hint.go CoordinatesHint: a hint line that fills the terminal width exactly is counted one row too many; the redisplay moves up one row too far",
+            "an application hint (Hint.Set / status text) whose width is exactly the terminal width"),
+ "C08-s5": ("C08", ["C08"], "internal/history/sources.go Write: the duplicate test is hoisted out of the per-source loop and made against the active source (GetLast)",
+            "two bound sources whose newest entries differ, accepted line equal to the newest entry of one of them"),
+ "C08-s6": ("C08", ["C08"], "inputrc/config.go GetString answers for int variables; NewSources then reads history-size as a non-empty string and caps every source at 500 entries",
+            "a history source already holding 500 or more entries"),
+ "C10-s5": ("C10", ["C10"], "internal/history/file.go: the 'file ends on a newline' test is made once at load time instead of before every append",
+            "a source opened before another writer (or a crash of another process) leaves a torn record, then an append through the first source, then a reopen"),
+ "C10-s6": ("C10", ["C10"], "internal/history/file.go openHist: one preallocated 1 MiB scanner buffer with a 1 MiB limit; a longer record ends the reading of the file",
+            "a record above 1 MiB followed by other records, then a reopen"),
+ "C12-s5": ("C12", ["C12"], "inputrc/parse.go expandIncludePath: the guard `~/` loosened to `~` while the expansion still slices file[2:]",
+            "`$include ~` (a one-character path)"),
+ "C12-s6": ("C12", ["C12"], "inputrc/config.go ReadFile: the nil test of ReadFileFunc dropped",
+            "an $include parsed into a Config that has no ReadFileFunc (NewConfig() used directly)"),
+ "C19-s5": ("C19", ["C19"], "inputrc/inputrc.go escape: octal codes written with strconv.FormatInt, losing the zero padding to three digits",
+            "a Control/Meta character written in octal whose code has fewer than three octal digits, or that is followed by an octal digit"),
+ "C19-s6": ("C19", ["C19"], "internal/keymap PrintBinds: the command -> sequences list is cached per keymap and only dropped by ReloadConfig; dump-functions prints a stale picture",
+            "a dump, then binds changed through the API (Config.Bind), then a second dump"),
+ "C20-s5": ("C20", ["C20"], "internal/display/display_unix.go WatchResize: the completion grid is only laid out again when more than one row is displayed",
+            "a one-row completion list on screen and a resize to a width at which it no longer fits on one row"),
+ "C20-s6": ("C20", ["C20"], "internal/core/keys.go extractCursorPos cuts the reports out of the input in place; keys following a report in the same read overwrite the report handed to the asynchronous requester",
+            "a resize / Printf while the shell waits, the terminal's answer followed by typed keys in the same read"),
  "C01-s5": ("C01", ["C01"], "internal/ui/prompt.go formatRightPrompt pads before the fit check: strings.Repeat with a negative count panics", "a right-side prompt or tooltip set by the application and a line reaching the right margin"),
  "C01-s6": ("C01", ["C01"], "internal/history/sources.go Delete only resets the active source index when the active source itself is removed", "several history sources, the user cycling to the last one, the application removing an earlier one between two calls"),
  "C03-s5": ("C03", ["C03"], "internal/keymap: the sorted sequences of a keymap are cached at the first dispatched key and only dropped by ReloadConfig", "binds added or removed through Config.Bind / Config.Binds after a first call"),
